@@ -1085,6 +1085,7 @@ struct Client {
     int enters = 0, donts = 0, nops = 0;
     bool sends_exit = false;
     bool closed_by_us = false;
+    size_t exact_prefix = 0;    //!< the first atoms are written one per segment, each followed by a loop pass
     std::string script;
 };
 
@@ -1100,7 +1101,9 @@ struct TcpWorld {
     std::string desc;
     vh::Sig sig;
 
-    TcpWorld(vh::Rng &r, bool t) : rng(r), telnet(t) {}
+    uint64_t case_idx = 0;
+
+    TcpWorld(vh::Rng &r, bool t, uint64_t idx) : rng(r), telnet(t), case_idx(idx) {}
 
     void log(const std::string &s) { desc += s; desc += ' '; if (desc.size() < 5800) vh::st().case_desc = desc; }
 
@@ -1266,11 +1269,27 @@ struct TcpWorld {
         sig.add(line);
     }
 
-    void gen_hostile(Client &c) {
+    void gen_hostile(Client &c, bool force_naws = false) {
         c.clean = false;
+        if (force_naws || rng.chance(1, 4)) {
+            // window-size block shorter than its four bytes as the very first data of the connection, delivered as
+            // 3 + 3 bytes: util::Buffer sizes itself to twice the first read, so the block then fills a 6-byte heap
+            // allocation exactly and a read past the block's end is visible to ASan
+            std::string s("\xff\xfa\x1f");
+            add(c, s, false);
+            s.clear();
+            size_t k = (force_naws || rng.chance(2, 3)) ? 1 : rng.below(4);
+            for (size_t j = 0; j < k; ++j) s += (char)rng.range(0, 0xfe);
+            s += "\xff\xf0";
+            add(c, s, false);
+            c.exact_prefix = 2;
+            vh::counter("tcp_sb_naws_short_first_data");
+        }
         size_t n = 1 + rng.below(10);
         for (size_t i = 0; i < n; ++i) {
             unsigned w = (unsigned)rng.below(14);
+            if ((w == 6 || w == 7) && !rng.chance(1, 8)) w = 8;     // repeated exit is the direct hostile leg's staple; keep it occasional here
+            if (w == 6 || w == 7) vh::counter("tcp_repeated_exit_in_one_write");
             std::string s;
             switch (w) {
                 case 0: s = rng.bytes(1 + rng.below(200)); break;
@@ -1291,7 +1310,8 @@ struct TcpWorld {
             add(c, s, true);
         }
         if (rng.chance(1, 3)) { add(c, std::string("\xff\xfa\x1f\x00\x50", 5), true); vh::counter("tcp_truncated_iac_at_close"); }
-        c.script = "hostile(" + std::to_string(c.atoms.size()) + " atoms)";
+        c.script = "hostile:";
+        for (auto &a : c.atoms) c.script += " <" + vh::hex(a.bytes.substr(0, 24)) + (a.bytes.size() > 24 ? "..>" : ">");
     }
 
     //! next write of a client: a random run of whole atoms, possibly ending inside a splittable one
@@ -1299,6 +1319,7 @@ struct TcpWorld {
         seg.clear();
         if (c.next_atom >= c.atoms.size()) return false;
         size_t want = 1 + rng.below(rng.chance(1, 3) ? 2 : 24);
+        if (c.next_atom < c.exact_prefix) want = 1;      // exactly sized first reads
         bool cut_inside = false;
         while (c.next_atom < c.atoms.size() && want > 0) {
             Atom &a = c.atoms[c.next_atom];
@@ -1394,7 +1415,9 @@ struct TcpWorld {
             c.fd = connect_client();
             if (c.fd < 0) { fprintf(stderr, "VH-FATAL: c13-tcp-connect-failed errno=%d\n", errno); abort(); }
             pump(2);
-            if (rng.chance(11, 20)) { gen_clean(c); vh::counter("tcp_clean_sessions"); }
+            bool naws_case = telnet && i == 0 && case_idx % 8 == 0;     // every 8th case opens with the short window-size block
+            if (!naws_case && rng.chance(11, 20)) { gen_clean(c); vh::counter("tcp_clean_sessions"); }
+            else if (naws_case) { gen_hostile(c, true); vh::counter("tcp_hostile_sessions"); }
             else { gen_hostile(c); vh::counter("tcp_hostile_sessions"); }
             log(vh::fmt("c%zu:%s", i, c.script.substr(0, 300).c_str()));
         }
@@ -1417,7 +1440,8 @@ struct TcpWorld {
                 c.next_atom = c.atoms.size();
                 continue;
             }
-            if (!rng.chance(1, 5)) pump(1 + (int)rng.below(2));     // otherwise let the next write coalesce
+            bool exact_first = c.next_atom <= c.exact_prefix && c.exact_prefix > 0;
+            if (exact_first || !rng.chance(1, 5)) pump(1 + (int)rng.below(2));     // otherwise let the next write coalesce
             if (!c.clean && rng.chance(1, 25)) break_off(c);
         }
         if (aborted) return;
@@ -1485,8 +1509,8 @@ struct TcpWorld {
     }
 };
 
-void case_tcp(uint64_t, vh::Rng &rng, bool telnet) {
-    TcpWorld w(rng, telnet);
+void case_tcp(uint64_t idx, vh::Rng &rng, bool telnet) {
+    TcpWorld w(rng, telnet, idx);
     w.run();
     vh::counter("probe_invocations_total", w.sh.probe_total);
     vh::note_case(w.sig.h, w.sh.probe_total >= 2);
